@@ -11,6 +11,9 @@ coq/SerLegacyDefs.v (the model), coq/SerLegacyModel*.v (the theorems) and the ex
   * the conditions of the loops of characters() and writeAttrString()
   * writeNormalizedChars()/cdata(): the index tests (i != 0, i < end - 1, i < end - 2), the strings written
   * the values XalanTranscodingServices::getMaximumCharacterValue() can return
+  * the raw marker (m_nextIsRaw): the processing instruction FormatterListener::s_piTarget / s_piData sets it,
+    characters() and cdata() consume AND CLEAR it before charactersRaw(); both places where it is cleared are
+    anchored, in FormatterToXML and in XalanXMLSerializerBase (fail closed if either is missing)
   * variant flags, each recognising exactly one of two shapes at every site it covers (fail closed):
       legacy_cdata_cr_referenced          (fixes/C04/10-K-new-7)
       legacy_detects_lone_low_surrogate   (fixes/C04/11-K-new-4)
@@ -326,6 +329,46 @@ def gen_serlegacy():
         b = function_body(cpp, r"FormatterToXML::throwUnrepresentableCharacterException\s*\([^)]*\)\s*\{", "throwUnrepresentableCharacterException")
         need(r"throw\s+XalanTranscodingServices::UnrepresentableCharacterException\s*\(\s*ch\s*,\s*m_encoding\s*,\s*theBuffer\s*\)\s*;", b, "throwUnrepresentableCharacterException body")
 
+    # ---- the raw marker
+    flc = strip_comments(sf.read("PlatformSupport/FormatterListener.cpp"))
+
+    def c_array(name):
+        m = need(r"FormatterListener::%s\s*\[\s*\]\s*=\s*\{(.*?)\}\s*;" % name, flc, "FormatterListener::" + name)
+        v = [val(e, U) for e in m.group(1).split(",") if e.strip()]
+        if not v or v[-1] != 0 or 0 in v[:-1]:
+            raise AnchorError("FormatterListener::%s is not a NUL-terminated string" % name)
+        return v[:-1]
+    raw_target, raw_data = c_array("s_piTarget"), c_array("s_piData")
+    if num(need(r"FormatterListener::s_piTargetLength\s*=\s*(\w+)\s*;", flc, "s_piTargetLength").group(1)) != len(raw_target) or \
+       num(need(r"FormatterListener::s_piDataLength\s*=\s*(\w+)\s*;", flc, "s_piDataLength").group(1)) != len(raw_data):
+        raise AnchorError("s_piTargetLength / s_piDataLength do not match the strings")
+    MARK = (r"if\s*\(\s*equals\s*\(\s*target\s*,\s*length\s*\(\s*target\s*\)\s*,\s*s_piTarget\s*,\s*s_piTargetLength\s*\)\s*==\s*true\s*&&"
+            r"\s*equals\s*\(\s*data\s*,\s*length\s*\(\s*data\s*\)\s*,\s*s_piData\s*,\s*s_piDataLength\s*\)\s*==\s*true\s*\)\s*\{\s*m_nextIsRaw\s*=\s*true\s*;\s*\}\s*else\s*\{")
+    need(MARK, pib, "FormatterToXML::processingInstruction: the marker sets m_nextIsRaw")
+    # characters(): if(m_inCData) cdata(); else if(m_nextIsRaw) { m_nextIsRaw = false; charactersRaw(); } else ...
+    need(r"^\{\s*if\s*\(\s*length\s*!=\s*0\s*\)\s*\{\s*if\s*\(\s*m_inCData\s*==\s*true\s*\)\s*\{\s*cdata\s*\(\s*chars\s*,\s*length\s*\)\s*;\s*\}"
+         r"\s*else\s+if\s*\(\s*m_nextIsRaw\s*\)\s*\{\s*m_nextIsRaw\s*=\s*false\s*;\s*charactersRaw\s*\(\s*chars\s*,\s*length\s*\)\s*;\s*\}\s*else\s*\{\s*writeParentTagEnd\s*\(\s*\)\s*;",
+         chb, "FormatterToXML::characters: the raw branch clears m_nextIsRaw")
+    need(r"^\{\s*if\s*\(\s*m_nextIsRaw\s*==\s*true\s*\)\s*\{\s*m_nextIsRaw\s*=\s*false\s*;\s*charactersRaw\s*\(\s*ch\s*,\s*length\s*\)\s*;\s*\}\s*else\s*\{\s*if\s*\(\s*m_escapeCData\s*\)",
+         cdb, "FormatterToXML::cdata: the raw branch clears m_nextIsRaw")
+    crb = function_body(cpp, r"FormatterToXML::charactersRaw\s*\([^)]*\)\s*\{", "FormatterToXML::charactersRaw")
+    need(r"^\{\s*writeParentTagEnd\s*\(\s*\)\s*;\s*m_ispreserve\s*=\s*true\s*;\s*accumContent\s*\(\s*chars\s*,\s*0\s*,\s*length\s*\)\s*;", crb, "FormatterToXML::charactersRaw body")
+    if len(re.findall(r"m_nextIsRaw\s*=\s*true", cpp)) != 1:
+        raise AnchorError("FormatterToXML: m_nextIsRaw is set in more than one place")
+    # the same protocol in the new serializer (XalanXMLSerializerBase)
+    xsb = strip_comments(sf.read("XMLSupport/XalanXMLSerializerBase.cpp"))
+    b = function_body(xsb, r"XalanXMLSerializerBase::characters\s*\([^)]*\)\s*\{", "XalanXMLSerializerBase::characters")
+    need(r"^\{\s*if\s*\(\s*length\s*!=\s*0\s*\)\s*\{\s*if\s*\(\s*m_nextIsRaw\s*\)\s*\{\s*m_nextIsRaw\s*=\s*false\s*;\s*charactersRaw\s*\(\s*chars\s*,\s*length\s*\)\s*;\s*\}\s*else\s*\{\s*writeCharacters\s*\(\s*chars\s*,\s*length\s*\)\s*;\s*\}\s*\}\s*\}$",
+         b, "XalanXMLSerializerBase::characters: the raw branch clears m_nextIsRaw")
+    b = function_body(xsb, r"XalanXMLSerializerBase::cdata\s*\([^)]*\)\s*\{", "XalanXMLSerializerBase::cdata")
+    need(r"^\{\s*if\s*\(\s*length\s*!=\s*0\s*\)\s*\{\s*if\s*\(\s*m_nextIsRaw\s*==\s*true\s*\)\s*\{\s*m_nextIsRaw\s*=\s*false\s*;\s*charactersRaw\s*\(\s*ch\s*,\s*length\s*\)\s*;\s*\}\s*else\s*\{\s*writeCDATA\s*\(\s*ch\s*,\s*length\s*\)\s*;\s*\}\s*\}\s*\}$",
+         b, "XalanXMLSerializerBase::cdata: the raw branch clears m_nextIsRaw")
+    b = function_body(xsb, r"XalanXMLSerializerBase::processingInstruction\s*\([^)]*\)\s*\{", "XalanXMLSerializerBase::processingInstruction")
+    need(r"^\{\s*" + MARK + r"\s*writeProcessingInstruction\s*\(\s*target\s*,\s*data\s*\)\s*;\s*\}\s*\}$", b, "XalanXMLSerializerBase::processingInstruction: the marker")
+    fxu = strip_comments(sf.read("XMLSupport/FormatterToXMLUnicode.hpp"))
+    b = function_body(fxu, r"\bcharactersRaw\s*\(\s*const\s+XMLCh\s*\*\s*const\s+chars\s*,\s*const\s+size_type\s+length\s*\)\s*\{", "FormatterToXMLUnicode::charactersRaw")
+    need(r"^\{\s*writeParentTagEnd\s*\(\s*\)\s*;\s*m_indentHandler\.setPreserve\s*\(\s*true\s*\)\s*;\s*m_writer\.write\s*\(\s*chars\s*,\s*length\s*\)\s*;\s*m_indentHandler\.setPrevText\s*\(\s*true\s*\)\s*;\s*\}$", b, "FormatterToXMLUnicode::charactersRaw body")
+
     o = HEADER
     o += "(* plugin translator/gen_serlegacy.py: the legacy XML serializer FormatterToXML (C04, part legacy) *)\n"
     o += "From Coq Require Import NArith List.\nImport ListNotations.\nLocal Open Scope N_scope.\n\n"
@@ -350,6 +393,8 @@ def gen_serlegacy():
     o += "Definition lg_cdata_split : list N := %s.\n" % nlist(split_out)
     o += "Definition lg_comment_open : list N := %s.\nDefinition lg_comment_close : list N := %s.\n" % (nlist(c_open), nlist(c_close))
     o += "Definition lg_pi_open : list N := %s.\nDefinition lg_pi_sep : N := %d.\nDefinition lg_pi_close : list N := %s.\n" % (nlist(p_open), p_sep, nlist(p_close))
+    o += "(* the raw marker: processingInstruction(lg_raw_target, lg_raw_data) sets m_nextIsRaw *)\n"
+    o += "Definition lg_raw_target : list N := %s.\nDefinition lg_raw_data : list N := %s.\n" % (nlist(raw_target), nlist(raw_data))
     o += "\n(* variants (each flag: every site it covers has the same one of two recognised shapes) *)\n"
     o += "Definition legacy_cdata_cr_referenced : bool := %s.\n" % ("true" if cd_sites[0] == 1 else "false")
     o += "Definition legacy_detects_lone_low_surrogate : bool := %s.\n" % ("true" if sur_sites[0] == 1 else "false")
